@@ -2,7 +2,7 @@
 into the evidence file. The checks themselves live in lean/Insim/Props/<ID>.lean (theorems),
 harness/src/<id>.rs (correspondence streams + implementation-side oracle) and translate/*.py."""
 
-TRANSLATORS = ["vehicle", "durations", "track", "codepages"]
+TRANSLATORS = ["vehicle", "durations", "track", "codepages", "builder"]
 
 TRUSTED_COMMON = [
     "Lean 4.33.0 kernel; axioms allowed: propext, Classical.choice, Quot.sound (audited with #print axioms on every run); no sorry/admit/native_decide/bv_decide/own axioms (grep on every run)",
@@ -140,5 +140,17 @@ PROPS = {
         ],
         "rule": "esc/unesc/strip lines per string; the oracle additionally evaluates the wire clause on the real escape -> to_lossy_bytes -> to_lossy_string -> unescape chain; distinct = distinct op text",
         "assumptions": ["'encodable characters' = characters that exist in at least one of the ten Windows codepages of the specification (and no NUL)"],
+    },
+    "C18": {
+        "level_text": "Lean refinement theorem: for every sequence of builder calls the ISI's request id, prefix, interval, password, name, UDP port and every one of the 16 flag bits equal 'the last call that had an opinion about that field, else the documented default' (one generic last-writer-wins lemma instantiated per field; flag bits over BitVec 16 with insert/remove semantics of bitflags::set; wholesale replacement decides every bit); isi() is total, including UDP without a local address; the ten flag helpers set the bits the specification assigns (regenerated from builder.rs/isi.rs, decide). 'First and only frame, in the configured size mode' is decided by the oracle over real loopback TCP/UDP connections with both connection flavours.",
+        "level_note": "Trusted: Lean kernel; translate/builder.py; the harness incl. its loopback listener. The sockets, connect timeouts and the relay path are outside the model; the handshake clause is observed at the peer, not proved.",
+        "technique": "Lean 4 proof (refinement of a fold to a last-writer-wins specification, BitVec lemmas) + translator + differential correspondence + loopback oracle",
+        "translators": ["builder"],
+        "trusted": [
+            "translate/builder.py: every isi_flag_* setter's body (IsiFlags::NAME it sets), the IsiFlags constants, Isi::DEFAULT_INAME, VERSION",
+            "hand-modelled, tied by the correspondence run only: the other setters and Builder::isi()",
+        ],
+        "rule": "bld per op sequence (all 2^10 flag states from empty and full words, presence/absence grids, all sequences up to length 3/4 over a 10-op alphabet, random sequences up to 13 ops); loopback connections are oracle-only evaluations; distinct = distinct op text",
+        "assumptions": ["for UDP without a local address the documented default of the UDP port is 0 (the socket is bound to an ephemeral port and LFS replies to the datagram's source)"],
     },
 }
